@@ -319,6 +319,26 @@ def ro_array(g, probe, acc):
                 if st4 != "raised" and not np.array_equal(np.asarray(third, dtype=float), fresh):
                     out.append((_key("stress/kept-object-returns-an-array-the-caller-modified"),
                                 {"kept_object": np.asarray(third, dtype=float).tolist(), "fresh_object": fresh.tolist()}))
+    # mesh-sized arrays (>= 20000 elements; implementations may switch to other code above some size): same numbers as
+    # the short array, element by element; the result of the first call is still held when the next call is made
+    if st != "raised":
+        reps = -(-20000 // len(el))
+        big_s, big_e = np.tile(arr, reps), np.tile(np.array(el, dtype=float), reps)
+        fresh = _ro(g)
+        e_big = fresh.strain(big_s)
+        e_snapshot = np.array(e_big, dtype=float, copy=True)
+        fresh.strain(0.5 * big_s)
+        st7, s_big = _inv(g, fresh.stress, big_e)
+        acc.evaluations += 3
+        if not np.array_equal(np.asarray(e_big, dtype=float), e_snapshot) or not np.array_equal(e_snapshot[:len(el)], np.array(el, dtype=float)):
+            out.append((_key("strain/mesh-sized-array-differs-from-short-array-or-held-result-changed"), {"elements": len(big_s)}))
+        if st7 == "raised":
+            out.append((_key("stress/raises-%s/mesh-sized-array" % type(s_big).__name__), {"elements": len(big_e), "message": str(s_big)[:160]}))
+        else:
+            s_big = np.asarray(s_big, dtype=float).reshape(-1)
+            worst = int(np.argmax(np.abs(s_big - big_s)))
+            if not abs(s_big[worst] - big_s[worst]) <= _a(g, float(big_s[worst])):
+                out.append((_key("stress/not-the-inverse-of-strain/mesh-sized-array"), {"elements": len(big_e), "stress": float(big_s[worst]), "got": float(s_big[worst])}))
     de = np.asarray(ro.delta_strain(arr), dtype=float)
     acc.evaluations += 1
     for s, x in zip(axis, de.tolist()):
@@ -539,6 +559,13 @@ def hooke_arrays(g, probe, acc):
             fn = getattr(law, fn_name)
             a = [np.asarray(x, dtype=float) for x in fn(*[row * unit for row in arrs])]
             acc.evaluations += 1
+            # mesh-sized columns (>= 20000 rows) == the short columns, element by element
+            reps = -(-20000 // arrs.shape[1])
+            big = [np.asarray(x, dtype=float) for x in fn(*[np.tile(row * unit, reps) for row in arrs])]
+            acc.evaluations += 1
+            if any(x.shape != (reps * arrs.shape[1],) or not np.array_equal(x[:arrs.shape[1]], y) or not np.array_equal(x[-arrs.shape[1]:], y)
+                   for x, y in zip(big, a)):
+                out.append((_hk("%s/%s/mesh-sized-array-differs-from-short-array" % (name, fn_name)), {"rows": reps * arrs.shape[1]}))
             # the same states handed over as arrays with two axes (nodes x load steps): (3, 5), (4, 5), (2, 3), (3, 3)
             for shape in ((3, 5), (4, 5), (2, 3), (3, 3)):
                 m = shape[0] * shape[1]
